@@ -503,3 +503,142 @@ Proof.
   - intros H. apply Zp_eq. rewrite H. reflexivity.
   - intros ->. reflexivity.
 Qed.
+
+(** ** powmod as coded in secpols._powmod (n >= 0, modulus b given), over the Gfpx model's normal-form
+    multiplication [Gfpx.mul p] and remainder [Gfpx.mod_nz p . b]:
+      n == 0: 1;   c = a;   if n == 1: c = c mod b   (repair d3440b4)
+      for i in range(n.bit_length()-2, -1, -1):  c = (c*c) mod b;  if bit i of n: c = (c*a) mod b
+    Theorem: for n >= 1 the result is a reduced normal form (deg < deg b) congruent to a^n modulo (p, b),
+    i.e. it is (a^n) mod b.  (Congruence is stated over Z[x]: x == y + k1*b + p*k2.) *)
+Require MPyC.Gfpx.
+From Coq Require Import Znumtheory.
+Section SecPowMod.
+Local Open Scope Z_scope.
+Variable p : Z.
+Variable b : list Z.
+
+Definition pm_rd (x : list Z) : list Z := Gfpx.mod_nz p x b.
+Fixpoint sp_powmod_pos (a : list Z) (n : positive) : list Z :=
+  match n with
+  | xH => a
+  | xO n' => let c := sp_powmod_pos a n' in pm_rd (Gfpx.mul p c c)
+  | xI n' => let c := sp_powmod_pos a n' in pm_rd (Gfpx.mul p (pm_rd (Gfpx.mul p c c)) a)
+  end.
+Definition sp_powmod (a : list Z) (n : Z) : list Z :=
+  if n =? 0 then [1] else if n =? 1 then pm_rd a else sp_powmod_pos a (Z.to_pos n).
+
+(** plain power in Z[x], no reduction *)
+Fixpoint powz (a : list Z) (n : nat) : list Z :=
+  match n with O => [1] | S n' => Gfpx.mulz a (powz a n') end.
+
+Definition cong (x y : list Z) : Prop :=
+  exists k1 k2, forall t, Gfpx.evalZ x t = Gfpx.evalZ y t + Gfpx.evalZ k1 t * Gfpx.evalZ b t + p * Gfpx.evalZ k2 t.
+
+Lemma cong_eval x y : (forall t, Gfpx.evalZ x t = Gfpx.evalZ y t) -> cong x y.
+Proof. intros H. exists [], []. intros t. rewrite H. simpl. ring. Qed.
+
+Lemma cong_trans x y z : cong x y -> cong y z -> cong x z.
+Proof.
+  intros (k1 & k2 & H) (l1 & l2 & G). exists (Gfpx.addz k1 l1), (Gfpx.addz k2 l2). intros t.
+  rewrite H, G, !Gfpx.evalZ_addz. ring.
+Qed.
+
+Lemma cong_peq x y : Gfpx.peq p x y -> cong x y.
+Proof. intros (k & H). exists [], k. intros t. rewrite H. simpl. ring. Qed.
+
+Lemma cong_mulz x x' y y' : cong x y -> cong x' y' -> cong (Gfpx.mulz x x') (Gfpx.mulz y y').
+Proof.
+  intros (k1 & k2 & H) (l1 & l2 & G).
+  exists (Gfpx.addz (Gfpx.mulz k1 x') (Gfpx.mulz y l1)), (Gfpx.addz (Gfpx.mulz k2 x') (Gfpx.mulz y l2)).
+  intros t. rewrite !Gfpx.evalZ_addz, !Gfpx.evalZ_mulz, H, G. ring.
+Qed.
+
+Lemma evalZ_powz a n t : Gfpx.evalZ (powz a n) t = Gfpx.evalZ a t ^ Z.of_nat n.
+Proof.
+  induction n as [|n IH]; [cbn [powz Gfpx.evalZ]; change (Z.of_nat 0) with 0; rewrite Z.pow_0_r; ring|].
+  cbn [powz]. rewrite Gfpx.evalZ_mulz, IH, Nat2Z.inj_succ, Z.pow_succ_r by lia. reflexivity.
+Qed.
+
+Hypothesis Pp : prime p.
+Hypothesis Wb : Gfpx.wf p b.
+Hypothesis Hb : b <> [].
+
+Lemma pm_rd_spec x : Gfpx.wf p x ->
+  Gfpx.wf p (pm_rd x) /\ (length (pm_rd x) < length b)%nat /\ cong (pm_rd x) x.
+Proof.
+  intros Wx. unfold pm_rd. rewrite Gfpx.mod_nz_eq.
+  destruct (Gfpx.divmod_nz_spec p x b Pp Wx Wb Hb) as (_ & Wr & Ll & (k & P)).
+  split; [exact Wr|]. split; [exact Ll|].
+  exists (Gfpx.negz (fst (Gfpx.divmod_nz p x b))), k. intros t.
+  specialize (P t). rewrite Gfpx.evalZ_addz, Gfpx.evalZ_mulz in P.
+  rewrite !Gfpx.evalZ_negz.
+  set (Q := Gfpx.evalZ (fst (Gfpx.divmod_nz p x b)) t) in *. set (B := Gfpx.evalZ b t) in *.
+  set (QB := Q * B) in *. replace (- Q * B) with (- QB) by (unfold QB; ring). lia.
+Qed.
+
+Lemma gmul_spec x y : Gfpx.wf p x -> Gfpx.wf p y ->
+  Gfpx.wf p (Gfpx.mul p x y) /\ cong (Gfpx.mul p x y) (Gfpx.mulz x y).
+Proof.
+  intros Wx Wy. split; [apply Gfpx.mul_wf; assumption|].
+  apply cong_peq, Gfpx.mul_peq. pose proof (prime_ge_2 p Pp). lia.
+Qed.
+
+Lemma sp_powmod_pos_spec a : Gfpx.wf p a -> forall n,
+  Gfpx.wf p (sp_powmod_pos a n) /\ cong (sp_powmod_pos a n) (powz a (Pos.to_nat n)).
+Proof.
+  intros Wa. induction n as [n [Wc Cc]|n [Wc Cc]|]; cbn [sp_powmod_pos].
+  - destruct (gmul_spec _ _ Wc Wc) as [W1 C1].
+    destruct (pm_rd_spec _ W1) as (W2 & _ & C2).
+    destruct (gmul_spec _ _ W2 Wa) as [W3 C3].
+    destruct (pm_rd_spec _ W3) as (W4 & _ & C4).
+    split; [exact W4|].
+    eapply cong_trans; [exact C4|]. eapply cong_trans; [exact C3|].
+    eapply cong_trans; [apply cong_mulz; [eapply cong_trans; [exact C2|eapply cong_trans; [exact C1|apply cong_mulz; exact Cc]]|apply cong_eval; reflexivity]|].
+    apply cong_eval. intros t. rewrite !Gfpx.evalZ_mulz, !evalZ_powz.
+    rewrite Pos2Nat.inj_xI, Nat2Z.inj_succ, Nat2Z.inj_mul. change (Z.of_nat 2) with 2.
+    set (KN := Z.of_nat (Pos.to_nat n)). assert (0 <= KN) by (unfold KN; lia).
+    replace (Z.succ (2 * KN)) with (KN + KN + 1) by lia.
+    rewrite !Z.pow_add_r by lia. rewrite Z.pow_1_r. ring.
+  - destruct (gmul_spec _ _ Wc Wc) as [W1 C1].
+    destruct (pm_rd_spec _ W1) as (W2 & _ & C2).
+    split; [exact W2|].
+    eapply cong_trans; [exact C2|]. eapply cong_trans; [exact C1|].
+    eapply cong_trans; [apply cong_mulz; exact Cc|].
+    apply cong_eval. intros t. rewrite !Gfpx.evalZ_mulz, !evalZ_powz.
+    rewrite Pos2Nat.inj_xO, Nat2Z.inj_mul. change (Z.of_nat 2) with 2.
+    set (KN := Z.of_nat (Pos.to_nat n)). assert (0 <= KN) by (unfold KN; lia).
+    replace (2 * KN) with (KN + KN) by lia. rewrite Z.pow_add_r by lia. reflexivity.
+  - split; [exact Wa|]. apply cong_eval. intros t. rewrite evalZ_powz.
+    change (Z.of_nat (Pos.to_nat 1)) with 1. rewrite Z.pow_1_r. reflexivity.
+Qed.
+
+(** every n >= 2 ends with a reduction *)
+Lemma sp_powmod_pos_reduced a : Gfpx.wf p a -> forall n, (n <> 1)%positive ->
+  (length (sp_powmod_pos a n) < length b)%nat.
+Proof.
+  intros Wa n Hn. destruct n as [n|n|]; [| |congruence]; cbn [sp_powmod_pos];
+    destruct (sp_powmod_pos_spec a Wa n) as [Wc _];
+    destruct (gmul_spec _ _ Wc Wc) as [W1 _].
+  - destruct (pm_rd_spec _ W1) as (W2 & _ & _). destruct (gmul_spec _ _ W2 Wa) as [W3 _].
+    apply (pm_rd_spec _ W3).
+  - apply (pm_rd_spec _ W1).
+Qed.
+
+Theorem sp_powmod_correct a n : Gfpx.wf p a -> 1 <= n ->
+  Gfpx.wf p (sp_powmod a n) /\ (length (sp_powmod a n) < length b)%nat /\
+  cong (sp_powmod a n) (powz a (Z.to_nat n)).
+Proof.
+  intros Wa Hn. unfold sp_powmod.
+  destruct (Z.eqb_spec n 0); [lia|]. destruct (Z.eqb_spec n 1) as [->|H1].
+  - destruct (pm_rd_spec a Wa) as (W & L & C). split; [exact W|]. split; [exact L|].
+    eapply cong_trans; [exact C|]. apply cong_eval. intros t. rewrite evalZ_powz.
+    change (Z.of_nat (Z.to_nat 1)) with 1. rewrite Z.pow_1_r. reflexivity.
+  - destruct (sp_powmod_pos_spec a Wa (Z.to_pos n)) as [W C].
+    split; [exact W|]. split.
+    + apply sp_powmod_pos_reduced; [exact Wa|]. intros E. apply H1.
+      rewrite <- (Z2Pos.id n) by lia. rewrite E. reflexivity.
+    + replace (Z.to_nat n) with (Pos.to_nat (Z.to_pos n)); [exact C|].
+      rewrite <- (Z2Pos.id n) at 2 by lia. rewrite Z2Nat.inj_pos. reflexivity.
+Qed.
+
+End SecPowMod.
